@@ -62,15 +62,17 @@ mod agg_depth__par;
 mod agg_lattice__topar;
 mod neg_rec_after__exppar;
 mod agg_empty__topar;
-mod disj__gen;
-mod disj__perm1;
-mod disj_nested__pari;
-mod rep_expr__ser;
-mod multi_head_disj__exp;
-mod mac_basic__par;
-mod mac_basic__src1;
-mod mac_capture__ser;
-mod mac_nested__exp;
+mod agg_const_args__pari;
+mod disj__run;
+mod disj__runpar;
+mod disj_nested__ser;
+mod pat_args__exp;
+mod multi_head_disj__par;
+mod neg_in_disj__exppar;
+mod mac_basic__gen;
+mod mac_basic__exp;
+mod mac_nested__par;
+mod mac_gensym_disj__exppar;
 
 fn lookup(name: &str) -> fn() -> Box<dyn Driven> {
    match name {
@@ -128,15 +130,17 @@ fn lookup(name: &str) -> fn() -> Box<dyn Driven> {
       "agg_lattice__topar" => agg_lattice__topar::make,
       "neg_rec_after__exppar" => neg_rec_after__exppar::make,
       "agg_empty__topar" => agg_empty__topar::make,
-      "disj__gen" => disj__gen::make,
-      "disj__perm1" => disj__perm1::make,
-      "disj_nested__pari" => disj_nested__pari::make,
-      "rep_expr__ser" => rep_expr__ser::make,
-      "multi_head_disj__exp" => multi_head_disj__exp::make,
-      "mac_basic__par" => mac_basic__par::make,
-      "mac_basic__src1" => mac_basic__src1::make,
-      "mac_capture__ser" => mac_capture__ser::make,
-      "mac_nested__exp" => mac_nested__exp::make,
+      "agg_const_args__pari" => agg_const_args__pari::make,
+      "disj__run" => disj__run::make,
+      "disj__runpar" => disj__runpar::make,
+      "disj_nested__ser" => disj_nested__ser::make,
+      "pat_args__exp" => pat_args__exp::make,
+      "multi_head_disj__par" => multi_head_disj__par::make,
+      "neg_in_disj__exppar" => neg_in_disj__exppar::make,
+      "mac_basic__gen" => mac_basic__gen::make,
+      "mac_basic__exp" => mac_basic__exp::make,
+      "mac_nested__par" => mac_nested__par::make,
+      "mac_gensym_disj__exppar" => mac_gensym_disj__exppar::make,
       _ => panic!("no such program variant in this shard: {}", name),
    }
 }
